@@ -420,6 +420,36 @@ def oracle(chk, quick):
         if not numpy.array_equal(again, full, equal_nan=True):
             chk.fail("state:zernikeArray", "two identical zernikeArray calls differ", rep)
 
+    # ---- all rotations: cos(mθ+rot) = cos(rot)·cos(mθ) − sin(rot)·sin(mθ), i.e. the rotated cosine mode is that combination of
+    # the unrotated cosine and sine partners (and similarly for the sine mode) — evaluated in one process with the unrotated mode
+    # requested first, then several rotations of the same (n, m, N)
+    for it in range(20 if quick else 300):
+        n, m = valid_nm(rng, 8)
+        if m == 0:
+            continue
+        m = abs(m)
+        N = rng.randint(4, 24)
+        chk.oracle_cases += 1
+        chk.case(("oracle", "rotation", n, m, N))
+        with numpy.errstate(all="ignore"):
+            c0, s0 = Z.zernike_nm(n, m, N, 0), Z.zernike_nm(n, -m, N, 0)
+            for rot in (rng.uniform(-7, 7), -numpy.pi / 2, rng.uniform(-1, 1)):
+                cr, sr = Z.zernike_nm(n, m, N, rot), Z.zernike_nm(n, -m, N, rot)
+                sc = max(1.0, float(numpy.abs(c0).max()))
+                e1 = float(numpy.abs(cr - (numpy.cos(rot) * c0 - numpy.sin(rot) * s0)).max())
+                e2 = float(numpy.abs(sr - (numpy.cos(rot) * s0 + numpy.sin(rot) * c0)).max())
+                if max(e1, e2) > 1e-9 * sc:
+                    chk.fail("rotation:zernike_nm", "zernike_nm(%d,±%d,%d,rot=%r) is not the rotation of the unrotated pair (errors %.3g, %.3g)"
+                             % (n, m, N, rot, e1, e2), {"n": n, "m": m, "N": N, "rot": rot})
+                    break
+    # ---- a few high radial orders in every run: R_n^m(1) = 1 needs factorials beyond 20! (integer overflow territory)
+    for n, m in ((21, 1), (24, 4), (30, 0), (33, 11)):
+        chk.oracle_cases += 1
+        with numpy.errstate(all="ignore"):
+            v = float(numpy.asarray(Z.zernikeRadialFunc(n, m, numpy.array([1.0]))).ravel()[0])
+        if not abs(v - 1.0) <= 1e-6:
+            chk.fail("radial-at-one:high-order", "zernikeRadialFunc(%d,%d,1) = %r ≠ 1" % (n, m, v), {"n": n, "m": m, "got": v})
+
     # ---- orthonormality under Noll normalisation: Gram matrix within 2(n_max+1)/N of the identity, N refined
     sizes = [32, 65, 128] if quick else [32, 65, 128, 255, 512]
     for N in sizes:
